@@ -37,7 +37,7 @@ def mk_values():
 def gen_ops(rng, n, keys, values):
     ops = []
     for _ in range(n):
-        t = rng.choice([0, 0, 1, 1, 1, 2, 3, 4, 5, 6, 6, 7, 8, 9, 10, 11, 12, 13, 14])
+        t = rng.choice([0, 0, 1, 1, 1, 2, 3, 4, 5, 6, 6, 7, 8, 9, 10, 11, 12, 13, 14, 15, 15])
         k = rng.choice(keys)
         v = rng.choice(values)()
         if t in (0, 2, 3, 4, 14):
@@ -53,6 +53,11 @@ def gen_ops(rng, n, keys, values):
             if t == 9:
                 pairs = list(OrderedDict(pairs).items())
             ops.append((t, pairs))
+        elif t == 15:
+            idk = [x for x in keys if x.isidentifier()]
+            pairs = [(rng.choice(keys), rng.choice(values)()) for _ in range(rng.randrange(0, 3))]
+            kw = list(OrderedDict((rng.choice(idk), rng.choice(values)()) for _ in range(rng.randrange(1, 3))).items())
+            ops.append((t, pairs, kw))
         else:
             ops.append((t,))
     return ops
@@ -68,6 +73,8 @@ def enc_op(o):
         return [t] + codec.enc_str(o[1]) + ([0] if o[2] is None else [1] + codec.enc_value(o[2][1]))
     if t in (8, 9):
         return [t] + codec.enc_items(o[1])
+    if t == 15:
+        return [t] + codec.enc_items(o[1]) + codec.enc_items(o[2])
     return [t]
 
 
@@ -112,6 +119,8 @@ def impl_trace(factory, init, ops):
                 d.update(o[1]); r = ("none",)
             elif t == 9:
                 d.update(**dict(o[1])); r = ("none",)
+            elif t == 15:
+                d.update(o[1], **dict(o[2])); r = ("none",)
             elif t == 10:
                 c = type(d)(d.default_factory, list(d.items())); r = ("b", same_copy(c, d)); d = c
             elif t == 11:
@@ -198,6 +207,9 @@ def ref_trace(factory, init, ops):
         elif t in (8, 9):
             for k, v in o[1]:
                 m[k.lower()] = codec.canon(v)
+        elif t == 15:
+            for k, v in list(o[1]) + list(o[2]):        # an ordinary dict applies the positional pairs, then the keywords
+                m[k.lower()] = codec.canon(v)
         elif t in (10, 11, 12, 13):
             r = ("b", True)
         elif t == 14:
@@ -248,7 +260,8 @@ def run(ctx):
     atoms = []
     for k in KEYS:
         atoms += [(0, k), (1, k, 1), (1, k, [7]), (2, k), (3, k), (5, k, 9), (6, k, None), (6, k, ("some", 0)), (7, k, 5), (14, k)]
-    atoms += [(8, [("A", 1), ("b", 2), ("a", 3)]), (8, []), (9, [("B", 4)]), (10,), (11,), (12,), (13,)]
+    atoms += [(8, [("A", 1), ("b", 2), ("a", 3)]), (8, []), (9, [("B", 4)]), (10,), (11,), (12,), (13,),
+              (15, [("A", 1), ("layers", 2)], [("a", 3), ("B", 4)]), (15, [("B", 1)], [("A", 2)])]
     inits = [[], [("A", 0), ("layers", [1])]]
     n_exh = 0
     for n in range(1, L + 1):
